@@ -5,6 +5,7 @@
 // output:     steps joined by ';', a step is <out>|<obj0>|<obj1>|<obj2>
 //             out: n | b0 | b1 | s<units>[!]     ('!' = terminator missing)
 #include "common.hpp"
+#include "seq_fork.hpp"
 #include "Array.hpp"
 #include "StringStream.hpp"
 #include <memory>
@@ -332,7 +333,7 @@ static std::string run_width(const std::string &kind, const std::vector<std::str
 }
 
 int main() {
-    vf::for_each_line([](const std::string &line) -> std::string {
+    vf::for_each_line_forked([](const std::string &line) -> std::string {
         auto tk = vf::split_ws(line);
         if (tk.size() < 3) return "BADCASE";
         std::vector<std::string> ops;
